@@ -187,10 +187,13 @@ def role_of(prop, job, res):
     dup_in_agg = any(len(rows) != len(set(rows)) for rn, rows in cex_in.items() if rn in agg_rels)
     dl = (res.get("cex") or {}).get("deadline_checks") or []
     sccs = (res.get("cex") or {}).get("interrupted_in_scc") or []
+    safe = (res.get("cex") or {}).get("strata_owning_all_aggregated_indices") or []
     return {"cex_duplicates_tuple_in_aggregated_relation": dup_in_agg,
             "first_call_interrupted": bool(dl and dl[0] > 0),
-            # some interrupted call got past the first stratum (so at least one stratum had been completed and handed back)
-            "an_interrupted_call_had_completed_a_stratum": any(s is not None and s > 0 for s in sccs),"scenario": job["scenario"]["kind"], "failure": kinds[0] if kinds else "?", "dup_inputs": bool(job["scenario"].get("dup")),
+            # an index of a count/sum/mean-aggregated relation was still in the program value when a deadline struck
+            # (some interruption happened inside a stratum that does not own all of those indices)
+            "an_aggregated_index_outlived_an_interruption": any(s is not None and s not in safe for s in sccs),
+            "scenario": job["scenario"]["kind"], "failure": kinds[0] if kinds else "?", "dup_inputs": bool(job["scenario"].get("dup")),
             "multiplicity_sensitive_agg": feats["msagg"], "agg_over_lattice_value": feats["agg_lat_val"],
             "has_lattice": feats["lattice"], "has_agg": feats["agg"]}
 
